@@ -17,11 +17,41 @@ Theorem C11_generator_length_ladder : forall v, v < 2 ^ 64 ->
   Some (clvm_bytes_len v) = option_map nlen (ser (Atom (canon_n v))).
 Proof. exact clvm_bytes_len_ser. Qed.
 
-(* the canonical form is the unique minimal non-negative encoding *)
+(* the canonical form is the unique minimal non-negative encoding ... *)
 Theorem C11_canonical_form_unique : forall bs,
   is_minimal bs = true -> match bs with [] => True | b :: _ => b2n b < 128 end ->
   canon_n (be2n bs) = bs.
 Proof. exact canon_n_unique. Qed.
 
+(* ... it is minimal, non-negative, and decodes to the value *)
+Theorem C11_canonical_is_minimal : forall n, is_minimal (canon_n n) = true.
+Proof. exact canon_n_minimal. Qed.
+
 Theorem C11_canonical_decodes : forall n, be2n (canon_n n) = n.
 Proof. exact be2n_canon_n. Qed.
+
+(* condition integers (mirror of sanitize_uint, any width k):
+   accepted exactly on the canonical form of a value below 256^k ... *)
+Theorem C11_sanitize_accepts_exactly_canonical : forall bs k n,
+  sanitize_uint bs k = SOk n <-> bs = canon_n n /\ n < 256 ^ N.of_nat k.
+Proof. exact sanitize_uint_ok_iff. Qed.
+
+(* ... redundant leading zero bytes are rejected ... *)
+Theorem C11_sanitize_rejects_redundant_zero : forall bs k,
+  sanitize_uint bs k = SErr <->
+  match bs with
+  | [b] => b2n b = 0
+  | b0 :: b1 :: _ => b2n b0 = 0 /\ b2n b1 < 128
+  | [] => False
+  end.
+Proof. exact sanitize_uint_err_iff. Qed.
+
+(* ... a set top bit is a negative overflow, and a canonical value that does not fit is a
+   positive overflow: nothing is ever truncated *)
+Theorem C11_sanitize_negative : forall bs k,
+  sanitize_uint bs k = SNegOverflow <-> match bs with b :: _ => 128 <= b2n b | [] => False end.
+Proof. exact sanitize_uint_neg_iff. Qed.
+
+Theorem C11_sanitize_positive_overflow : forall bs k,
+  sanitize_uint bs k = SPosOverflow <-> exists n, bs = canon_n n /\ 256 ^ N.of_nat k <= n.
+Proof. exact sanitize_uint_pos_iff. Qed.
